@@ -7,7 +7,8 @@ Init == c \in DOMAIN Cases
 Next == UNCHANGED c
 \* r = [i, j, same, sigma]  (indices into u and ps; sigma a record name |-> term)
 Bad(cs) ==
-  {<<"Unifier", r.i, r.j, r.same, IF PolarityClash(cs.u[r.i], cs.ps[r.j]) THEN "PolarityClash" ELSE "plain">> :
+  {<<"Unifier", r.i, r.j, r.same, IF PolarityClash(cs.u[r.i], cs.ps[r.j]) THEN "PolarityClash"
+                                    ELSE IF ~r.same /\ cs.u[r.i].k = "C" /\ ~Ground(cs.u[r.i]) THEN "OpenTargetSupertypeMode" ELSE "plain">> :
       r \in {x \in {cs.res[k] : k \in DOMAIN cs.res} : ~UnifierOK(cs.ct, cs.u[x.i], cs.ps[x.j], x.sigma, x.same)}}
   \cup {<<"NoException", e[1], e[2], e[3], "plain">> : e \in {cs.errs[k] : k \in DOMAIN cs.errs}}
 \* one representative per (clause, shape) class, plus the total count
